@@ -480,7 +480,7 @@ pub fn exec(song: &mut Song, tokens: &Vec<Token>) -> bool {
                                 SValue::from_i(0x12),
                                 SValue::from_i(-1), // checksum start
                                 SValue::from_i(0x40),
-                                SValue::from_i(sys_ch as isize),
+                                SValue::from_i(0x10 + sys_ch as isize), // part block address 40 1x 15
                                 SValue::from_i(0x15),
                                 SValue::from_i(val as isize),
                                 SValue::from_i(-2), // checksum end
